@@ -121,7 +121,7 @@ def parse_clauses(loc):
     encf, bare, P, err = (('LocListsFormat::Lle', 'LocListsFormat::Bare', 'lle', 'UnknownLocListsEntry') if loc else
                           ('RangeListsFormat::Rle', 'RangeListsFormat::Bare', 'rle', 'UnknownRangeListsEntry'))
     last = (LLE if loc else RLE)[-1][1]
-    out = [f'[C08:{P}-decode][C08:pair-decode][C10:view] res matches Ok(Some(e)) ==> {P}_entry({B0}, encoding, format matches {encf}, e, {B1})']
+    out = decode_clauses(loc, f'format matches {encf}', enc, B0, B1)
     S = 'encoding.address_size'
     out += [
         f'[C08:{P}-end] (format matches {encf} && res matches Ok(None)) ==> {B0}.at(0) == 0 && adv({B0}, {B1}, 1)',
@@ -141,8 +141,7 @@ def next_raw_clauses(loc):
     """RawRngListIter::next / RawLocListIter::next: iterator protocol + raw iteration exposes the encoded entry unchanged"""
     B0, B1 = 'old(self).inp()', 'final(self).inp()'
     P = 'lle' if loc else 'rle'
-    out = [f'[C08:raw-unchanged] res matches Ok(Some(e)) ==> {P}_entry({B0}, old(self).enc(), old(self).coded(), e, {B1})']
-    out += decode_clauses(loc, 'old(self).coded()', 'old(self).enc()', B0, B1)
+    out = decode_clauses(loc, 'old(self).coded()', 'old(self).enc()', B0, B1)
     out += [
         f'[C01:iter-empty] {B0}.len == 0 ==> res matches Ok(None)',
         f'[C01:iter-err-empties] res is Err ==> {B1}.len == 0',
@@ -154,8 +153,117 @@ def next_raw_clauses(loc):
     return out
 
 
+def resolve_spec(loc):
+    """ghost: what the resolving iterators report for one raw entry (DWARF 5 section 2.17.3 / 2.6.2, DESIGN A.5).
+    A(i) = address-size entry i of the unit's contribution to .debug_addr (tab, tbase)"""
+    ename, P, ety = (('RawLocListEntry', 'loc', 'RawLocListEntry<R>') if loc else ('RawRngListEntry', 'rng', 'RawRngListEntry<usize>'))
+    gen = '<R: Reader<Offset = usize>>' if loc else ''
+    d = ', ..' if loc else ''
+    A = lambda i: f'(tab_at(tab, tbase, {i}.as_nat(), size as nat) as u64)'
+    IN = lambda i: f'tab_in(tab, tbase, {i}.as_nat(), size as nat)'
+    default = f'        {ename}::DefaultLocation {{ .. }} => (base, Some((0u64, u64::MAX))),\n' if loc else ''
+    default_ok = f'        {ename}::DefaultLocation {{ .. }} => true,\n' if loc else ''
+    data = ''
+    if loc:
+        data = f"""
+/// the location description of a raw entry (handed through unchanged)
+pub open spec fn loc_data{gen}(e: {ety}) -> Option<Expression<R>> {{
+    match e {{
+        {ename}::AddressOrOffsetPair {{ data, .. }} => Some(data),
+        {ename}::StartxEndx {{ data, .. }} => Some(data),
+        {ename}::StartxLength {{ data, .. }} => Some(data),
+        {ename}::OffsetPair {{ data, .. }} => Some(data),
+        {ename}::DefaultLocation {{ data }} => Some(data),
+        {ename}::StartEnd {{ data, .. }} => Some(data),
+        {ename}::StartLength {{ data, .. }} => Some(data),
+        _ => None,
+    }}
+}}
+"""
+    return f"""
+/// every address-table index the entry uses lies inside the table section
+pub open spec fn {P}_lookups_ok{gen}(e: {ety}, size: u8, tab: RView, tbase: nat) -> bool {{
+    match e {{
+        {ename}::BaseAddressx {{ addr: DebugAddrIndex(i) }} => {IN('i')},
+        {ename}::StartxEndx {{ begin: DebugAddrIndex(i), end: DebugAddrIndex(j){d} }} => {IN('i')} && {IN('j')},
+        {ename}::StartxLength {{ begin: DebugAddrIndex(i){d if loc else ', ..'} }} => {IN('i')},
+{default_ok}        _ => true,
+    }}
+}}
+/// (new running base address, reported range if any)
+pub open spec fn {P}_resolve{gen}(e: {ety}, base: u64, size: u8, tab: RView, tbase: nat) -> (u64, Option<(u64, u64)>) {{
+    match e {{
+        {ename}::BaseAddress {{ addr }} => (addr, None),
+        {ename}::BaseAddressx {{ addr: DebugAddrIndex(i) }} => ({A('i')}, None),
+        {ename}::StartxEndx {{ begin: DebugAddrIndex(i), end: DebugAddrIndex(j){d} }} => (base, filt({A('i')}, {A('j')}, size)),
+        {ename}::StartxLength {{ begin: DebugAddrIndex(i), length{d} }} => (base, filt({A('i')}, wrap_add({A('i')}, length, size), size)),
+        {ename}::AddressOrOffsetPair {{ begin, end{d} }} => (base, resolve_offset_pair(base, begin, end, size)),
+        {ename}::OffsetPair {{ begin, end{d} }} => (base, resolve_offset_pair(base, begin, end, size)),
+{default}        {ename}::StartEnd {{ begin, end{d} }} => (base, filt(begin, end, size)),
+        {ename}::StartLength {{ begin, length{d} }} => (base, filt(begin, wrap_add(begin, length, size), size)),
+    }}
+}}
+{data}"""
+
+
+RES_GHOST = """    pub closed spec fn inp(&self) -> RView { self.raw.inp() }
+    pub closed spec fn coded(&self) -> bool { self.raw.coded() }
+    pub closed spec fn enc(&self) -> Encoding { self.raw.enc() }
+    pub closed spec fn size(&self) -> u8 { self.raw.enc().address_size }
+    pub closed spec fn base(&self) -> u64 { self.base_address }
+    pub closed spec fn tab(&self) -> RView { self.debug_addr.sec() }
+    pub closed spec fn tbase(&self) -> nat { self.debug_addr_base.0 as nat }
+    /// everything but the remaining input and the running base address
+    pub open spec fn same_list(&self, o: &Self) -> bool {
+        self.coded() == o.coded() && self.enc() == o.enc() && self.tab() == o.tab() && self.tbase() == o.tbase()
+        && self.inp().root == o.inp().root && self.inp().be == o.inp().be
+    }"""
+
+
+def resolver_contracts(it, loc):
+    """RngListIter / LocListIter: new, get_address, next, next_raw, convert_raw"""
+    P = 'loc' if loc else 'rng'
+    raw = 'raw_loc' if loc else 'raw_range'
+    O, F = 'old(self)', 'final(self)'
+    it.insert_members(RES_GHOST)
+    it.splice('new', ret='res', ensures=[
+        'res.inp() == raw.inp() && res.coded() == raw.coded() && res.enc() == raw.enc() && res.base() == base_address '
+        '&& res.tab() == debug_addr.sec() && res.tbase() == debug_addr_base.0 as nat'])
+    it.splice('get_address', ret='res', ensures=[
+        '[C08:indexed-address] res matches Ok(a) ==> valid_address_size(self.size()) && tab_in(self.tab(), self.tbase(), index.0.as_nat(), self.size() as nat) '
+        '&& a as nat == tab_at(self.tab(), self.tbase(), index.0.as_nat(), self.size() as nat)'])
+    VS = f'[C08:valid-address-size] valid_address_size({O}.size())'
+    rng_of = 'x.range' if loc else 'x'
+    conv = [
+        f'[C08:resolve-base] res is Ok ==> {P}_lookups_ok({raw}, {O}.size(), {O}.tab(), {O}.tbase()) && '
+        f'{F}.base() == {P}_resolve({raw}, {O}.base(), {O}.size(), {O}.tab(), {O}.tbase()).0',
+        f'[C08:resolve-range] res matches Ok(o) ==> ({{ let r = {P}_resolve({raw}, {O}.base(), {O}.size(), {O}.tab(), {O}.tbase()).1; '
+        f'(o matches Some(x) ==> r == Some(({rng_of}.begin, {rng_of}.end))) && (o is None ==> r is None) }})',
+        f'[C08:nonempty-below-tombstone] res matches Ok(Some(x)) ==> {rng_of}.begin < {rng_of}.end && {rng_of}.begin < min_tomb({O}.size())',
+        f'[C08:resolve-err-keeps-base] res is Err ==> {F}.base() == {O}.base()',
+        f'{F}.same_list({O}) && {F}.inp() == {O}.inp()',
+    ]
+    if loc:
+        conv.insert(2, f'[C08:resolve-data][C10:view] res matches Ok(Some(x)) ==> loc_data({raw}) == Some(x.data)')
+    it.splice('convert_raw', ret='res', requires=[VS], ensures=conv, canary=True)
+    it.splice('next_raw', ret='res', ensures=next_raw_clauses(loc) + [f'{F}.same_list({O}) && {F}.base() == {O}.base()'])
+    it.splice('next', ret='res', requires=[VS], ensures=[
+        f'[C08:nonempty-below-tombstone] res matches Ok(Some(x)) ==> {rng_of}.begin < {rng_of}.end && {rng_of}.begin < min_tomb({O}.size())',
+        f'[C01:iter-empty] {O}.inp().len == 0 ==> res matches Ok(None)',
+        f'[C01:iter-err-progress] res is Err ==> {F}.inp().len < {O}.inp().len',
+        f'[C01:iter-progress] res matches Ok(Some(_)) ==> {F}.inp().len < {O}.inp().len',
+        f'[C01:iter-none-final][C08:end-stops] res matches Ok(None) ==> {F}.inp().len == 0',
+        f'[C01:frame] {F}.same_list({O}) && {F}.inp().len <= {O}.inp().len'],
+        loops={0: f'invariant self.same_list({O}), self.inp().len <= {O}.inp().len, valid_address_size(self.size()),\n decreases self.inp().len'},
+        canary=True)
+
+
 ONES_BV = ('proof { assert(!0u64 >> 56u64 == 0xff) by (bit_vector); assert(!0u64 >> 48u64 == 0xffff) by (bit_vector); '
            'assert(!0u64 >> 32u64 == 0xffff_ffff) by (bit_vector); assert(!0u64 >> 0u64 == 0xffff_ffff_ffff_ffff) by (bit_vector); }')
+
+# the decoders never need to unfold the recursive byte-level definitions: every operand is matched syntactically against
+# the callee's postcondition (positions differ only by linear arithmetic)
+HIDE = '\n        hide(uint_at); hide(uleb_in); hide(leb_len_in);\n'
 
 LEMF = 'proof { range.lemma_fields(); }'
 
@@ -202,8 +310,8 @@ use crate::vspec::*;''')
         '[C01:frame] within(old(input).rv(), final(input).rv())'])
     sk.add(M, rri)
     sk.add(M, rng.item(r'^pub struct Range \{').clean())
-    sk.add(M, entry_spec(False), label='rle_entry')
     rep = rng.item(r'^impl<T: ReaderOffset> RawRngListEntry<T>', label='RawRngListEntry').clean()
+    rep.insert_after('format: RangeListsFormat,\n    ) -> Result<Option<Self>> {', HIDE)
     rep.splice('parse', ret='res', ensures=parse_clauses(False), owners=['C01', 'C08'], before=[('if range.is_end()', LEMF)])
     sk.add(M, rep)
     rit = rng.item(r'^impl<R: Reader> RawRngListIter<R>', label='RawRngListIter').clean()
@@ -231,8 +339,8 @@ use crate::vspec::*;''')
         '[C01:frame] within(old(input).rv(), final(input).rv())'], owners=['C01', 'C08'],
         before=[('if encoding.version >= 5 {', 'proof { reveal(cld_hdr_at); reveal(cld_len_at); }')])
     sk.add(L, pd)
-    sk.add(L, entry_spec(True), label='lle_entry')
     lep = loc.item(r'^impl<R: Reader> RawLocListEntry<R>', label='RawLocListEntry').clean()
+    lep.insert_after('format: LocListsFormat) -> Result<Option<Self>> {', HIDE)
     lep.splice('parse', ret='res', ensures=parse_clauses(True), owners=['C01', 'C08'], before=[('if range.is_end()', LEMF)])
     sk.add(L, lep)
     lit = loc.item(r'^impl<R: Reader> RawLocListIter<R>', label='RawLocListIter').clean()
